@@ -29,8 +29,9 @@ func (s *sharedEntryAttributes) toXmlInternal(parent *etree.Element, onlyNewOrUp
 	switch s.schema.GetSchema().(type) {
 	case nil:
 		// This case represents a key level element. So no schema present. all child attributes need to be adedd directly to the parent element, since the key levels are not visible in the resulting xml.
-		if s.shouldDelete() {
-			// If the element is to be deleted
+		if s.shouldDelete() || s.keysShouldDelete() {
+			// If the element is to be deleted (as a whole, or because its keys are: a list entry
+			// does not outlive its keys, which is how the gNMI deletes see it as well)
 			// add the delete operation to the parent element
 			utils.AddXMLOperation(parent, utils.XMLOperationDelete, operationWithNamespace, useOperationRemove)
 			// retrieve the parent schema, we need to extract the key names
